@@ -18,14 +18,21 @@ def c17_late_structure(v):
     fire rules. It needs structure (dom / cod, or the constants they are derived from by rules)
     to arrive after a member fact had a chance to age: a close() between a fact and a dom / cod
     assertion, or dom / cod derived by rules."""
-    if not v["class"].endswith("/late-structure"):
+    if "/late-structure" not in v["class"]:
         return False
+    if "/late-structure-derived-merge" in v["class"]:
+        # the harness observed, in this very run, that a close() identified objects, morphisms or
+        # member elements (by a rule or by single-valuedness): their dom / cod / application rows
+        # are rewritten while member facts are already old
+        return True
     ops = v.get("case", {}).get("ops_readable", [])
     if any(o.startswith(("insert_oa(", "insert_ob(", "insert_fm(")) for o in ops):
         return True
     fact_seen = aged = False
     for o in ops:
-        if o.startswith(("insert_mo_mor_dom(", "insert_mo_mor_cod(")):
+        # structure: dom / cod / morphism application rows, and identifications of objects,
+        # morphisms or member elements (they rewrite those rows)
+        if o.startswith(("insert_mo_mor_dom(", "insert_mo_mor_cod(", "insert_el_mor_app(", "equate_mo(", "equate_mo_mor(", "equate_el(")):
             if aged:
                 return True
         elif o.startswith("insert_"):
@@ -33,3 +40,27 @@ def c17_late_structure(v):
         elif o.startswith("close"):
             aged = aged or fact_seen
     return False
+
+
+def _has_member_type(v):
+    src = v.get("case", {}).get("source", "")
+    return "model " in src and "\n    type " in src
+
+
+@witness("c17_unmapped_order")
+def c17_unmapped_order(v):
+    """Known finding C17/KF-2: an index copy of a member relation whose column order puts a
+    member-typed column before the model column is recomputed without mapping that column
+    (TODO in display_recompute_model_indices_fn). The harness tags a violation with
+    /unmapped-order only when, during that very run, such a copy was observed to differ from the
+    model-first copy of the same relation and age."""
+    return v["class"].endswith("/unmapped-order") and _has_member_type(v)
+
+
+@witness("c17_diagonal_copy")
+def c17_diagonal_copy(v):
+    """Known finding C17/KF-3: the diagonal-restricted `all` copy of a member relation is computed
+    from the diagonal copy of the domain, so a tuple that becomes diagonal only under a
+    non-injective morphism application never enters it. Tagged /diagonal-copy only when, during
+    that very run, a diagonal copy was observed to differ from the diagonal of the plain copy."""
+    return v["class"].endswith("/diagonal-copy") and _has_member_type(v)
